@@ -4,7 +4,7 @@ from .lib.match import *
 from .lib.facts import VERIF
 from .lib.paths import explore
 
-SELECT = r'^bluetoe::server::(l2cap_input|handle_\w+|error_response|check_size_and_handle_range|check_size_and_handle|check_handle|read_multiple\w*)$|^bluetoe::details::(read_handle|read_16bit|write_opcode)$'
+SELECT = r'^bluetoe::server::(l2cap_input|handle_\w+|error_response|check_size_and_handle_range|check_size_and_handle|check_handle|read_multiple\w*|collect_handle_uuid_tuples)$|^bluetoe::details::(read_handle|read_16bit|write_opcode)$|^bluetoe::details::(collect_attributes|collect_find_by_type_groups)::operator\(\)$|^bluetoe::service::read_primary_service_response$'
 UNITS = lambda u: u in ('w_inst_att', 'w_inst_enc') or u.startswith('t_att_') or u.startswith('t_server')
 SV = 'bluetoe::server::'
 META = {
@@ -36,6 +36,101 @@ def const_offset(n, base='input'):
     return None
 
 
+def is_ptr(n):
+    return n is not None and not isinstance(n, int) and '*' in (strip_casts(n).t or '')
+
+
+def remaining_lb(fn, n, at, depth=0):
+    """lower bound of an expression that measures remaining space at node `at` (None = not such an expression)"""
+    n = strip_casts(n)
+    if n is None or depth > 6:
+        return None
+    if n.v is not None and not n.c:
+        return n.v
+    b = as_binop(n)
+    if b and b[0] == '-' and is_ptr(b[1]) and is_ptr(b[2]):
+        lb = 0
+        for l, op, r in guard_atoms(fn, at):
+            for x, o2, y in ((l, op, r), (r, SWAP[op], l)):
+                if not isinstance(x, int) and same_expr(x, n):
+                    c = cval(y) if isinstance(y, int) or strip_casts(y).v is not None else (local_init(fn, strip_casts(y).n, optional=True).v if strip_casts(y).k in REF_KINDS and local_init(fn, strip_casts(y).n, optional=True) is not None else None)
+                    if c is not None:
+                        lb = max(lb, c if o2 == '>=' else c + 1 if o2 == '>' else 0)
+        return lb
+    if n.is_call('min'):
+        ls = [remaining_lb(fn, a, at, depth + 1) for a in n.args()]
+        return None if any(x is None for x in ls) else min(ls)
+    if b and b[0] == '+':
+        l, r = remaining_lb(fn, b[1], at, depth + 1), remaining_lb(fn, b[2], at, depth + 1)
+        return None if l is None or r is None else l + r
+    if n.k in REF_KINDS:
+        init = local_init(fn, n.n, optional=True)
+        if init is not None:
+            return remaining_lb(fn, init, at, depth + 1)
+    if n.k == 'UnaryExprOrTypeTraitExpr' and n.v is not None:
+        return n.v
+    return None
+
+
+def range_writers(chk, facts):
+    fns = []
+    for q in ('bluetoe::details::collect_attributes::operator()', 'bluetoe::details::collect_find_by_type_groups::operator()', 'bluetoe::service::read_primary_service_response', 'bluetoe::server::collect_handle_uuid_tuples'):
+        fns += variants(facts, q, chk)
+    for fn in fns:
+        probs = []
+        n_sub = 0
+        for n in fn.body.walk():
+            b = as_binop(n)
+            if not (b and b[0] == '-') or (is_ptr(b[1]) and is_ptr(b[2])):
+                continue
+            lb = remaining_lb(fn, b[1], n)
+            mentions_space = any(as_binop(x) is not None and as_binop(x)[0] == '-' and is_ptr(as_binop(x)[1]) and is_ptr(as_binop(x)[2]) for x in b[1].walk())
+            if not mentions_space and not (strip_casts(b[1]).k in REF_KINDS and local_init(fn, strip_casts(b[1]).n, optional=True) is not None and any(as_binop(x) is not None and as_binop(x)[0] == '-' and is_ptr(as_binop(x)[1]) for x in local_init(fn, strip_casts(b[1]).n, optional=True).walk())):
+                continue
+            sub = strip_casts(b[2])
+            sv = sub.v if sub.v is not None else (local_init(fn, sub.n, optional=True).v if sub.k in REF_KINDS and local_init(fn, sub.n, optional=True) is not None else None)
+            if sv is None:
+                continue
+            n_sub += 1
+            if lb is None or lb < sv:
+                probs.append((n, 'remaining space (known >= %s) is reduced by %d without a dominating test: the unsigned result wraps when fewer bytes are left and the following write runs past the response buffer' % (lb, sv)))
+        # writes through a cursor: write_handle(cur, ..) / write_16bit need 2 bytes of remaining space
+        for c in fn.body.calls(('write_handle', 'write_16bit')):
+            cur = strip_casts(c.args()[0])
+            if cur.k not in REF_KINDS:
+                continue
+            ats = guard_atoms(fn, c)
+            need = 2 * (1 + len([x for x in fn.body.calls(('write_handle', 'write_16bit')) if fn.block_of(x) == fn.block_of(c) and x.l < c.l and same_expr(strip_casts(x.args()[0]), cur)]))
+            best = 0
+            for l, op, r in ats:
+                for x, o2, y in ((l, op, r), (r, SWAP[op], l)):
+                    if isinstance(x, int):
+                        continue
+                    bx = as_binop(x)
+                    if bx and bx[0] == '-' and is_ptr(bx[1]) and same_expr(bx[2], cur):
+                        yv = cval(y) if isinstance(y, int) or strip_casts(y).v is not None else None
+                        if yv is None and strip_casts(y).k in REF_KINDS:
+                            i2 = local_init(fn, strip_casts(y).n, optional=True)
+                            yv = i2.v if i2 is not None and i2.v is not None else (lower_const(fn, i2) if i2 is not None else None)
+                        if yv is not None and o2 in ('>=', '>'):
+                            best = max(best, yv + (1 if o2 == '>' else 0))
+            if best < need and fn.name != 'collect_handle_uuid_tuples':
+                probs.append((c, '%s(%s, ..) needs %d byte(s) of remaining space, only %d known' % (c.cn, cur.text(), need, best)))
+        ok = not probs
+        chk.instance('range-writer-bounded', fn, '%s::%s: %d size reductions, cursor writes covered' % (fn.q.split('::')[-2], fn.name, n_sub), ok, '' if ok else probs[0][1], node=probs[0][0] if probs else None, key=fn.q.split('::')[-2] + '::' + fn.name)
+
+
+def lower_const(fn, n):
+    """smallest value of a ?: of constants / a constant (e.g. is_128bit ? 16 + 4 : 2 + 4)"""
+    n = strip_casts(n)
+    if n.v is not None:
+        return n.v
+    if n.k == 'ConditionalOperator':
+        a, b = lower_const(fn, n.c[1]), lower_const(fn, n.c[2])
+        return None if a is None or b is None else min(a, b)
+    return None
+
+
 def run(chk, facts, tier):
     spec = json.load(open(os.path.join(VERIF, 'spec', 'att.json')))
     chk.rule('dispatch-table', 'l2cap_input: every request / command / confirmation opcode of spec/att.json is dispatched to its handler, error_response gets no answer, anything else gets Error Response (request not supported) naming *input', floor=14)
@@ -44,6 +139,8 @@ def run(chk, facts, tier):
     chk.rule('input-read-covered', 'every constant-offset read of the input PDU is dominated by length tests that imply in_size >= offset + width', floor=15)
     chk.rule('helper-size-arguments', 'the instantiated size arguments of check_size_and_handle_range<A,B> / check_size_and_handle<A,B> cover the bytes those helpers read (>= 5 / >= 3) and they reject other lengths', floor=4)
     chk.rule('output-write-bounded', 'constant-index writes to the output lie below the minimum MTU (23) and every out_size store has a bounded form', floor=12)
+    chk.rule('range-writer-bounded', 'the response range writers (Read By Type, Find By Type Value, Read By Group Type, Find Information tuples): a remaining-space expression is reduced by a header size only where a dominating test (or min() with a constant) guarantees it is at least that large (no unsigned wrap), and every write through the cursor is covered by a dominating remaining-space test', floor=4)
+    range_writers(chk, facts)
     opc = facts.enum('bluetoe::details::att_opcodes') or {}
     chk.require(bool(opc), 'enum att_opcodes not found')
     for k, v in spec['opcode_values'].items():
